@@ -111,7 +111,22 @@ Proof. vm_compute. repeat split; reflexivity. Qed.
 Theorem C02_ruby_text_is_safe : avoids U [60; 62; 34; 38] rx_plugins_ruby__RUBY_PATTERN = true.
 Proof. vm_compute. reflexivity. Qed.
 
+(* enumerated parameters: the values the directive parsers may hand to the 'align' parameter of images and figures and to
+   the 'name' parameter of admonitions come from fixed lists (regenerated; the validating code is tied by control skeletons
+   with constants - SafeGen), and every word of those lists consists of lower-case ASCII letters *)
+From Verif Require Import SafeGen.
+Theorem C02_tie_safe_producers : safe_skeletons_ok = true.
+Proof. reflexivity. Qed.
+
+Definition lower_word (s : str) : bool :=
+  match s with [] => false | _ => forallb (fun c => (97 <=? c) && (c <=? 122)) s end.
+Theorem C02_enumerated_values_are_safe :
+  forallb lower_word image_allowed_aligns = true /\ forallb lower_word admonition_names = true /\
+  image_allowed_aligns <> [] /\ admonition_names <> [].
+Proof. repeat split; try (vm_compute; reflexivity); discriminate. Qed.
+
 Print Assumptions C02_no_injected_markup.
+Print Assumptions C02_enumerated_values_are_safe.
 Print Assumptions C02_no_script_url.
 Print Assumptions C02_ruby_text_is_safe.
 Print Assumptions C02_whole_document_no_injected_markup.
